@@ -23,6 +23,9 @@ func register(ch *core.Check) { registry[ch.ID] = ch }
 // An empty clause list imports the whole check.
 var imports = map[string][]core.Import{
 	"C01": {{From: "C14", Why: "replicas converge only if every non-deterministic call is rewritten before the statement enters the log"}},
+	"C02": {{From: "C20", Clauses: []string{"C20.f"}, Why: "a forwarded read that reuses a connection left with an unread response returns another request's (older) result"}},
+	"C06": {{From: "C05", Why: "the segments the checkpoint manager cuts are produced by the compacting scanner"}},
+	"C08": {{From: "C07", Clauses: []string{"C07.c", "C07.e"}, Why: "the upgrade plan is persisted by plan.WriteToFile and executed by the same executor operations as the reap plan"}},
 	"C03": {
 		{From: "C07", Why: "acknowledged writes live in the snapshot store once the log is truncated: a reap interrupted by a crash must not lose them"},
 		{From: "C04", Why: "a restart rebuilds the applied state from the snapshot store plus the log"},
@@ -32,6 +35,8 @@ var imports = map[string][]core.Import{
 		{From: "C09", Why: "the rebuild resolves its files through the catalogue and honours full-needed"},
 	},
 	"C11": {{From: "C34", Clauses: []string{"C34.a", "C34.b", "C34.c"}, Why: "streams and the reaper exclude each other through rsync.MultiRSW"}},
+	"C14": {{From: "C01", Clauses: []string{"C01.a"}, Why: "a statement is rewritten only if the endpoint that replicates it runs the rewriter on it with rewriting switched on"}},
+	"C18": {{From: "C19", Clauses: []string{"C19.b", "C19.c"}, Why: "every permission check asks the credential store: what it loaded must be what the file says"}},
 	"C20": {{From: "C02", Clauses: []string{"C02.b", "C02.c"}, Why: "forwarding happens only if a non-leader store answers ErrNotLeader instead of acting locally"}},
 	"C21": {{From: "C34", Clauses: []string{"C34.e"}, Why: "a backup is point-in-time consistent only while it holds the snapshot gate"}},
 	"C22": {{From: "C07", Why: "after a load or boot the snapshot store must rebuild the loaded database: the reaper consolidates exactly the newest full snapshot and what follows it"}},
@@ -43,6 +48,13 @@ var imports = map[string][]core.Import{
 }
 
 var importsOnce sync.Once
+
+type importKey struct {
+	p    *core.Program
+	from string
+}
+
+var importRuns = map[importKey]*core.Ctx{}
 
 // Registry returns the registered checks by property id.
 func Registry() map[string]*core.Check {
@@ -76,15 +88,20 @@ func RunImports(c *core.Ctx) {
 			c.Unk(c.Check.ID, "IMPORT", im.From, "", "imported check not registered")
 			continue
 		}
-		sub := core.NewCtx(c.P, src, c.Tier)
-		func() {
-			defer func() {
-				if r := recover(); r != nil {
-					sub.Unk(im.From, "PANIC", "checker", "", fmt.Sprintf("checker panicked: %v\n%s", r, debug.Stack()))
-				}
+		// one run of the imported check per program serves every importer
+		sub := importRuns[importKey{c.P, im.From}]
+		if sub == nil {
+			sub = core.NewCtx(c.P, src, c.Tier)
+			func() {
+				defer func() {
+					if r := recover(); r != nil {
+						sub.Unk(im.From, "PANIC", "checker", "", fmt.Sprintf("checker panicked: %v\n%s", r, debug.Stack()))
+					}
+				}()
+				src.Run(sub)
 			}()
-			src.Run(sub)
-		}()
+			importRuns[importKey{c.P, im.From}] = sub
+		}
 		want := func(clause, key string) bool {
 			if len(im.Clauses) == 0 {
 				return true
@@ -100,8 +117,9 @@ func RunImports(c *core.Ctx) {
 		n := 0
 		for _, o := range sub.Obls {
 			if want(o.Clause, o.Key) {
-				o.Prop = c.Check.ID
-				c.Obls = append(c.Obls, o)
+				cp := *o
+				cp.Prop = c.Check.ID
+				c.Obls = append(c.Obls, &cp)
 				n++
 			}
 		}
